@@ -1001,3 +1001,170 @@ Proof.
     cbn in I0. injection I0 as <-. reflexivity.
 Qed.
 End Depth3.
+
+(* ================= the ranking depends on the offering operations only ================= *)
+Section Depth4.
+Context {ind : Type}.
+Variable cmp : ind -> ind -> comparison.
+Variable dedup : ind -> ind -> bool.
+
+(* same kind of population, same ranked content, same capacity (selection size, stored speed, phase, network bag may differ) *)
+Definition sim (p q : pop ind) : Prop :=
+  match p, q with
+  | PG g, PG g' => g_best g = g_best g'
+  | PE e, PE e' => e_inds e = e_inds e' /\ e_max e = e_max e'
+  | PR r, PR r' => e_inds (r_elite r) = e_inds (r_elite r') /\ e_max (r_elite r) = e_max (r_elite r')
+  | _, _ => False
+  end.
+
+Lemma sim_refl p : sim p p.
+Proof. destruct p; cbn; auto. Qed.
+Lemma sim_sym p q : sim p q -> sim q p.
+Proof. destruct p, q; cbn; try tauto; intuition congruence. Qed.
+Lemma sim_trans p q r : sim p q -> sim q r -> sim p r.
+Proof. destruct p, q, r; cbn; try tauto; intuition congruence. Qed.
+Lemma sim_ranked p q : sim p q -> ranked p = ranked q.
+Proof. destruct p, q; cbn; try tauto; unfold g_ranked, r_ranked; intros H; try (rewrite H; reflexivity); tauto. Qed.
+
+Lemma sim_step_silent p o p' : step cmp dedup p o = Some p' -> is_offer o = false -> sim p p'.
+Proof.
+  intros H Ho. destruct o as [x|xs|sp t|d h n|]; try discriminate; destruct p as [g|e|r]; cbn [step] in H;
+    try (injection H as <-; apply sim_refl).
+  - injection H as <-. cbn. auto.
+  - destruct (r_on_generation r sp t) as [r'|] eqn:G; cbn in H; [|discriminate]. injection H as <-.
+    unfold r_on_generation in G. cbn.
+    destruct (r_phase r); repeat match type of G with context [if ?c then _ else _] => destruct c end;
+      try discriminate; injection G as <-; cbn; auto.
+Qed.
+
+Lemma g_fold_best xs : forall a a' : bool * greedy ind, g_best (snd a) = g_best (snd a') ->
+  g_best (snd (fold_left (fun (a : bool * greedy ind) x => let r := g_add cmp (snd a) x in (fst r || fst a, snd r)) xs a)) =
+  g_best (snd (fold_left (fun (a : bool * greedy ind) x => let r := g_add cmp (snd a) x in (fst r || fst a, snd r)) xs a')).
+Proof.
+  induction xs as [|x xs IH]; intros a a' H; cbn [fold_left]; [exact H|]. apply IH. cbn [snd].
+  unfold g_add. rewrite H. destruct (g_best (snd a')) as [b|] eqn:E; [destruct (is_gt (cmp b x)); cbn [snd g_best]; congruence|reflexivity].
+Qed.
+
+Lemma sim_step_offer p q o p' q' :
+  sim p q -> step cmp dedup p o = Some p' -> step cmp dedup q o = Some q' -> is_offer o = true -> sim p' q'.
+Proof.
+  intros S Hp Hq Ho. destruct o as [x|xs|sp t|d h n|]; try discriminate;
+    destruct p as [g|e|r], q as [g'|e'|r']; cbn [sim] in S; try contradiction; cbn [step] in Hp, Hq;
+    injection Hp as <-; injection Hq as <-; cbn [sim].
+  - unfold g_add. rewrite S. destruct (g_best g') as [b|] eqn:E; [destruct (is_gt (cmp b x)); cbn [snd g_best]; congruence|reflexivity].
+  - destruct S as [S1 S2]. unfold e_add, e_add_with_iter. cbn [e_inds e_max e_with]. rewrite S1, S2. auto.
+  - destruct S as [S1 S2]. unfold r_add, r_add_all. cbn [r_elite]. rewrite S1. unfold e_add_all.
+    destruct (filter (is_comparable cmp (hd_error (e_inds (r_elite r')))) [x]); [cbn; auto|].
+    unfold e_add_with_iter. cbn [e_inds e_max e_with]. rewrite S1, S2. auto.
+  - unfold g_add_all. apply g_fold_best. exact S.
+  - destruct S as [S1 S2]. unfold e_add_all. destruct xs; [cbn; auto|]. unfold e_add_with_iter. cbn [e_inds e_max e_with]. rewrite S1, S2. auto.
+  - destruct S as [S1 S2]. unfold r_add_all. cbn [r_elite]. rewrite S1. unfold e_add_all.
+    destruct (filter (is_comparable cmp (hd_error (e_inds (r_elite r')))) xs); [cbn; auto|].
+    unfold e_add_with_iter. cbn [e_inds e_max e_with]. rewrite S1, S2. auto.
+Qed.
+
+Lemma silent_run ops : forall p p', offers ops = [] -> run cmp dedup ops p = Some p' -> sim p p'.
+Proof.
+  induction ops as [|o ops IH]; intros p p' Ho R; cbn [run] in R; [injection R as <-; apply sim_refl|].
+  destruct (step cmp dedup p o) as [p1|] eqn:S; [|discriminate]. unfold offers in Ho. cbn [filter] in Ho.
+  destruct (is_offer o) eqn:E; [discriminate|]. eapply sim_trans; [eapply sim_step_silent; eauto|]. apply IH; auto.
+Qed.
+
+Lemma offers_sim ops1 : forall ops2 p q p' q',
+  sim p q -> offers ops1 = offers ops2 -> run cmp dedup ops1 p = Some p' -> run cmp dedup ops2 q = Some q' -> sim p' q'.
+Proof.
+  induction ops1 as [|o ops1 IH]; intros ops2 p q p' q' S Ho R1 R2.
+  - cbn in R1. injection R1 as <-. eapply sim_trans; [exact S|]. eapply silent_run; eauto.
+  - cbn [run] in R1. destruct (step cmp dedup p o) as [p1|] eqn:S1; [|discriminate].
+    unfold offers in Ho. cbn [filter] in Ho. destruct (is_offer o) eqn:E.
+    + (* an offer: skip the silent prefix of the other history *)
+      revert q q' S R2 Ho. induction ops2 as [|o2 ops2 IH2]; intros q q' S R2 Ho; [discriminate|].
+      cbn [run] in R2. destruct (step cmp dedup q o2) as [q1|] eqn:S2; [|discriminate].
+      cbn [filter] in Ho. destruct (is_offer o2) eqn:E2.
+      * injection Ho as <- Ho. eapply IH; [|exact Ho|exact R1|exact R2]. eapply sim_step_offer; eauto.
+      * eapply IH2; [|exact R2|exact Ho]. eapply sim_trans; [exact S|]. eapply sim_step_silent; eauto.
+    + eapply IH; [|exact Ho|exact R1|exact R2]. eapply sim_trans; [|exact S]. apply sim_sym. eapply sim_step_silent; eauto.
+Qed.
+
+(* two histories from the same population with the same offering operations end with the same ranking, whatever generation ticks
+   (statistics) and selections (random draws, network answers) are interleaved, and wherever *)
+Lemma ranked_depends_on_offers ops1 ops2 p0 p1 p2 :
+  offers ops1 = offers ops2 -> run cmp dedup ops1 p0 = Some p1 -> run cmp dedup ops2 p0 = Some p2 -> ranked p1 = ranked p2.
+Proof. intros Ho R1 R2. apply sim_ranked. eapply offers_sim; eauto. apply sim_refl. Qed.
+
+End Depth4.
+
+(* ================= the bool returned by add / add_all ================= *)
+Section Depth5.
+Context {ind : Type}.
+Variable cmp : ind -> ind -> comparison.
+Variable dedup : ind -> ind -> bool.
+Variable fit_differs : ind -> ind -> bool.
+Hypothesis TP : total_preorder cmp.
+(* the order is a function of the fitness: individuals whose fitness vectors agree are equal in the order *)
+Hypothesis FD : forall a b, fit_differs a b = false -> cmp a b = Eq.
+
+Lemma cmp_refl_eq x : cmp x x = Eq.
+Proof. destruct TP as [AS _]. specialize (AS x x). destruct (cmp x x); cbn in AS; congruence. Qed.
+
+Lemma step_ret_some p o : (exists b, step_ret cmp dedup fit_differs p o = Some b) <-> is_offer o = true.
+Proof. destruct o, p; cbn; split; intros H; try discriminate; try (destruct H; discriminate); try reflexivity; eexists; reflexivity. Qed.
+
+Lemma e_add_all_ret_false (e : elitism ind) ys : e_add_all_ret cmp dedup fit_differs e ys = false ->
+  hd_error (e_inds (e_add_all cmp dedup e ys)) = hd_error (e_inds e) \/
+  exists b b', hd_error (e_inds e) = Some b /\ hd_error (e_inds (e_add_all cmp dedup e ys)) = Some b' /\ fit_differs b b' = false.
+Proof.
+  destruct ys as [|y ys]; [left; reflexivity|]. cbn [e_add_all_ret e_add_all]. unfold e_add_ret, e_is_improved.
+  destruct (hd_error (e_inds e)) as [b|]; [|discriminate].
+  destruct (hd_error (e_inds (e_add_with_iter cmp dedup e (y :: ys)))) as [b'|]; [|discriminate].
+  intros H. right. exists b, b'. auto.
+Qed.
+
+Lemma g_fold_ret_false xs : forall a : bool * greedy ind,
+  fst (fold_left (fun (a : bool * greedy ind) x => let r := g_add cmp (snd a) x in (fst r || fst a, snd r)) xs a) = false ->
+  snd (fold_left (fun (a : bool * greedy ind) x => let r := g_add cmp (snd a) x in (fst r || fst a, snd r)) xs a) = snd a.
+Proof.
+  induction xs as [|x xs IH]; intros a H; cbn [fold_left] in *; [reflexivity|].
+  assert (K : forall a0 : bool * greedy ind, fst a0 = true ->
+     fst (fold_left (fun (a : bool * greedy ind) x => let r := g_add cmp (snd a) x in (fst r || fst a, snd r)) xs a0) = true).
+  { clear. induction xs as [|x xs IH]; intros a0 H; cbn [fold_left]; [exact H|]. apply IH. cbn [fst]. rewrite H. apply orb_true_r. }
+  rewrite (IH _ H). cbn [snd]. unfold g_add. destruct (g_best (snd a)) as [b|] eqn:B.
+  - destruct (is_gt (cmp b x)) eqn:G; [|reflexivity]. exfalso.
+    rewrite K in H; [discriminate|]. cbn [fst snd]. unfold g_add. rewrite B, G. reflexivity.
+  - exfalso. rewrite K in H; [discriminate|]. cbn [fst snd]. unfold g_add. rewrite B. reflexivity.
+Qed.
+
+(* an offering operation that returns false left the first ranked individual as it was, or replaced it by one of the same fitness *)
+Lemma step_ret_false p o p' : step cmp dedup p o = Some p' -> step_ret cmp dedup fit_differs p o = Some false ->
+  hd_error (ranked p') = hd_error (ranked p) \/
+  exists b b', hd_error (ranked p) = Some b /\ hd_error (ranked p') = Some b' /\ fit_differs b b' = false.
+Proof.
+  intros S R. destruct o as [x|xs|sp t|d h n|]; try discriminate; destruct p as [g|e|r]; cbn [step] in S; injection S as <-;
+    cbn [step_ret] in R; injection R as R; cbn [ranked].
+  - left. unfold g_add in *. destruct (g_best g) as [b|]; [destruct (is_gt (cmp b x)); [discriminate|reflexivity]|discriminate].
+  - apply (e_add_all_ret_false e [x] R).
+  - unfold r_ranked, r_add, r_add_all. cbn [r_elite]. apply e_add_all_ret_false. exact R.
+  - left. unfold g_add_all in *. rewrite g_fold_ret_false by exact R. reflexivity.
+  - apply (e_add_all_ret_false e xs R).
+  - unfold r_ranked, r_add_all. cbn [r_elite]. apply e_add_all_ret_false. exact R.
+Qed.
+
+(* so: whenever an add / add_all makes the first ranked individual strictly better, or fills an empty population, it returns true *)
+Lemma step_ret_true_on_improvement p o p' : step cmp dedup p o = Some p' -> is_offer o = true ->
+  match hd_error (ranked p), hd_error (ranked p') with
+  | Some b, Some b' => cmp b' b = Lt -> step_ret cmp dedup fit_differs p o = Some true
+  | None, Some _ => step_ret cmp dedup fit_differs p o = Some true
+  | _, _ => True
+  end.
+Proof.
+  intros S Ho. destruct (proj2 (step_ret_some p o) Ho) as [[|] R]; rewrite R.
+  - destruct (hd_error (ranked p)), (hd_error (ranked p')); auto.
+  - destruct (step_ret_false p o p' S R) as [H|(b & b' & H1 & H2 & H3)].
+    + rewrite H. destruct (hd_error (ranked p)) as [b|]; [|exact I]. intros C. rewrite cmp_refl_eq in C. discriminate.
+    + rewrite H1, H2. intros C. apply FD in H3. destruct TP as [AS _]. rewrite AS, H3 in C. discriminate.
+Qed.
+
+End Depth5.
+
+Lemma zfit_differs_order two a b : zfit_differs two a b = false -> zcmp a b = Eq.
+Proof. unfold zfit_differs, zcmp. intros H. apply orb_false_iff in H. destruct H as [H _]. apply Z.compare_eq_iff. lia. Qed.
